@@ -1372,3 +1372,49 @@ def rule_rio_layout(prog: Program) -> List[Instance]:
                                     f"_memfiles_ovr(len({short(zipped)})): as many side-car files as layers zipped with them" if ok else
                                     f"`{short(c)}` does not create len({short(zipped)}) files (count is `{short(defs[0])}`): zip() stops at the shorter sequence and the last layer(s) are silently not written", f.where(c)))
     return out
+
+
+def rule_tiles_within_source(prog: Program) -> List[Instance]:
+    """C05: the tile loop of _compress_tiles walks the *layout* (meta.tidx: padded to a multiple of
+    2**levels) and names blocks of the *source* array. The padding can exceed the free space of the last
+    tile, so the layout has tile rows/columns for which the source has no chunk. Every source-block key
+    built from a layout index must therefore be guarded by a bound on the source's chunk grid (or the
+    source must have been padded to the layout's shape first); an unguarded key that does not exist stays
+    a literal tuple in the graph and the compressor fails on it."""
+    out: List[Instance] = []
+    f = prog.func("cog._tifffile:_compress_tiles")
+    org = Origins(f)
+    loops = [n for n in walk_own(f.node) if isinstance(n, ast.For) and any(isinstance(c, ast.Call) and call_name(c) == "tidx" for c in ast.walk(n.iter))]
+    if not loops:
+        return [Instance("R-GUARDSEQ", f"{f.qual}#tiles-within-source", UNDET, "no loop over the layout's tile index (meta.tidx) found", f.where())]
+    # names holding the source collection / its name
+    data_names = {t.id for n in walk_own(f.node) if isinstance(n, ast.Assign) for t in n.targets if isinstance(t, ast.Name) and isinstance(n.value, ast.Attribute) and n.value.attr == "data"}
+    src_key_fns = {nf.name for nf in f.nested.values() if any(isinstance(r, ast.Return) and isinstance(r.value, ast.Tuple) for r in walk_own(nf.node))}
+    padded = any(isinstance(n, ast.Assign) and any(isinstance(t, ast.Name) and t.id in data_names for t in n.targets) and any(isinstance(c, ast.Call) and call_name(c) == "pad" for c in ast.walk(n.value)) for n in walk_own(f.node))
+    for lp in loops:
+        idx_names = {t.id for t in ast.walk(lp.target) if isinstance(t, ast.Name)}
+        refs = [c for c in ast.walk(lp) if isinstance(c, ast.Call) and call_name(c) in src_key_fns and names_in(c) & idx_names]
+        if not refs:
+            out.append(Instance("R-GUARDSEQ", f"{f.qual}#tiles-within-source", INFO, "tile loop does not build source block keys through a local helper", f.where(lp), nontrivial=False))
+        for k, c in enumerate(refs):
+            guarded = False
+            p = parent(c)
+            child = c
+            while p is not None and p is not lp:
+                test = None
+                if isinstance(p, ast.IfExp) and child is p.body:
+                    test = p.test
+                elif isinstance(p, ast.If) and child in p.body:
+                    test = p.test
+                if test is not None:
+                    for cmp_ in ast.walk(test):
+                        if isinstance(cmp_, ast.Compare) and len(cmp_.ops) == 1 and isinstance(cmp_.ops[0], (ast.Lt, ast.LtE)) and names_in(cmp_.left) & idx_names:
+                            bound_deps = org.deps_names(cmp_.comparators[0])
+                            if bound_deps & data_names:
+                                guarded = True
+                child, p = p, parent(p)
+            ok = guarded or padded
+            out.append(Instance("R-GUARDSEQ", f"{f.qual}#tiles-within-source:{k}", OK if ok else BAD,
+                                (f"source block `{short(c)}` is named only for layout indexes inside the source's chunk grid" if guarded else "source is padded to the layout before the tile loop") if ok else
+                                f"`{short(c)}` names a source block for every tile of the padded layout: where the padding adds whole tile rows/columns (528x528 with 16px tiles, 100000x100000 with 256px tiles) the block does not exist and compute fails with AttributeError: 'tuple' object has no attribute 'ndim'", f.where(c)))
+    return out
